@@ -3,7 +3,7 @@
 From Coq Require Import String.
 From stdpp Require Import gmap.
 From Galaxy.Base Require Import Strs.
-From Galaxy.Model Require Import Nets Pool Ipam Plugin PluginPool.
+From Galaxy.Model Require Import Nets Pool Ipam Plugin PluginPool PluginCrash.
 From Galaxy.Model Require Keys.
 From Galaxy.Corr Require Import CorrBase Ipamc.
 Local Open Scope N_scope.
@@ -152,3 +152,22 @@ Definition dump_pool_count (d : wdump) (name : str) : nat :=
 (** a step never brings the count above the size in force (size seen by galaxy-ipam's Pool lister at that step) *)
 Definition mon_pool_cap (name : str) (size : N) (prev cur : wdump) : bool :=
   (N.of_nat (dump_pool_count cur name) <=? N.max (N.of_nat (dump_pool_count prev name)) size).
+
+(** * histories with a process death inside Bind's multi-IP allocation (Model/PluginCrash.v) *)
+Inductive pop3 := P2 (o : pop2) | PCrashBind (ns name uid node : str) (k : nat).
+Definition pstep3 (w : world) (o : pop3) : world * pout2 :=
+  match o with
+  | P2 o => pstep2 w o
+  | PCrashBind ns name uid node k =>
+      match bind_crash w ns name uid node k with Some w' => (w', R1 RErr) | None => (w, R1 RStuck) end
+  end.
+Definition pstep3_obs := (pop3 * pout2 * wdump)%type.
+Fixpoint preplay3 (w : world) (i : N) (h : list pstep3_obs) : option N :=
+  match h with
+  | [] => None
+  | (o, r, d) :: rest =>
+      let '(w', r') := pstep3 w o in
+      if pout2_eqb r' r && wdump_ok w' d then preplay3 w' (i + 1) rest else Some i
+  end.
+Definition chk_phist3 (provider : bool) (nodes : list (str * N)) (conf : list json) (h : list pstep3_obs) : bool :=
+  match preplay3 (world_init provider nodes conf) 0 h with None => true | Some _ => false end.
